@@ -41,15 +41,11 @@ class TaskGroupContext:
     ) -> None:
         self._group: TaskGroup = TaskGroup()
         self._token: Token[TaskGroup] | None = None
-        self._cancelling: int = 0
 
     async def __aenter__(self) -> None:
         assert self._token is None, "TaskGroupContext reentrance is not allowed"  # nosec: B101
         await self._group.__aenter__()
         self._token = TaskGroupContext._context.set(self._group)
-        # remember cancellation requests pending already when entering
-        task: Task[Any] | None = current_task()
-        self._cancelling = task.cancelling() if task is not None else 0
 
     async def __aexit__(
         self,
@@ -60,6 +56,9 @@ class TaskGroupContext:
         assert self._token is not None, "Unbalanced TaskGroupContext context exit"  # nosec: B101
         TaskGroupContext._context.reset(self._token)
         self._token = None
+
+        task: Task[Any] | None = current_task()
+        cancelling: int = task.cancelling() if task is not None else 0
 
         try:
             await self._group.__aexit__(
@@ -72,12 +71,10 @@ class TaskGroupContext:
             raise  # never silence cancellation, it might have been requested when awaiting tasks
 
         except BaseException:
-            # group exiting with an exception is aborting from the start - it has taken back
-            # its own cancellation request (if any) and never cancels its parent then, more
-            # requests pending than when entering came from the outside - the group drops
-            # those arriving while it waits in favour of the exception, do not lose them
-            task: Task[Any] | None = current_task()
-            if exc_type is not None and task is not None and task.cancelling() > self._cancelling:
+            # group exiting with an exception is aborting from the start, it never cancels
+            # its parent then - cancellation requested meanwhile came from the outside
+            # and was dropped by the group in favour of the exception, do not lose it
+            if exc_type is not None and task is not None and task.cancelling() > cancelling:
                 raise CancelledError() from None
 
             pass  # silence TaskGroup exceptions, if there was exception already we will get it
